@@ -9,7 +9,7 @@
    RP.TmgrSched.Oracle that the harness applies to the implementation's trace. *)
 From Coq Require Import ZArith List Bool.
 From RP Require Import Gen.StatesTables States.Model States.Inst
-  TmgrSched.Model TmgrSched.Oracle TmgrSched.Proofs TmgrSched.Proofs2 TmgrSched.Balance.
+  TmgrSched.Model TmgrSched.Oracle TmgrSched.Proofs TmgrSched.Proofs2 TmgrSched.Balance TmgrSched.Proofs3.
 Import ListNotations.
 Open Scope Z_scope.
 
@@ -92,6 +92,55 @@ Theorem C12_rr_only_added_partial :
       forallb (fun a => role_eqb (a_role a) RAdded && memz (a_pid a) pids) (asgs_of ev) = true.
 Proof. exact rr_loop_only_added. Qed.
 Print Assumptions C12_rr_only_added_partial.
+
+(* the pilot state the scheduler has recorded never regresses (in the pilot
+   state order), whatever messages arrive -- in particular not when a pilot
+   is added again with an older pilot document *)
+Theorem C12_pilot_state_monotone :
+  forall (c : cfg) (ops : list op) (s : st) (q : Z),
+    pval (stq q (s_pilots s)) <= pval (stq q (s_pilots (fst (run_st c s ops)))).
+Proof. exact run_mono. Qed.
+Print Assumptions C12_pilot_state_monotone.
+
+(* every report is absorbed: after a message that did not raise, the recorded
+   state of a pilot is at least as advanced as every state the message
+   reported for it (state notification, or document of an add_pilots command);
+   all _assign_pilot calls of the message see that recorded state *)
+Theorem C12_reports_absorbed :
+  forall (c : cfg) (s : st) (o : op) (s' : st) (ev : list event) (e : option serr),
+    step c s o = (s', ev, e) ->
+    QA (s_pilots s') ev /\
+    forall x, In x (reports_of false o e) -> snd x <= pval (stq (fst x) (s_pilots s')).
+Proof. exact (fun c s o s' ev e H => proj2 (step_QA c s o s' ev e H)). Qed.
+Print Assumptions C12_reports_absorbed.
+
+(* bound only to eligible pilots, w.r.t. the most advanced report: over any
+   history, no task is placed by Backfilling on a pilot for which some report
+   so far (state notification or add document) lies beyond BF_STOP -- a pilot
+   once reported final never gets work again.  PARTIAL: reports of a state
+   notification batch that raised are not counted (see _refuted) *)
+Theorem C12_bound_only_to_eligible_partial :
+  forall (c : cfg) (ops : list op), ok_bf_eligible false c ops (run c st0 ops) = true.
+Proof. exact bf_eligible_partial. Qed.
+Print Assumptions C12_bound_only_to_eligible_partial.
+
+(* the strict form (the oracle clause: ALL reports count) holds for histories
+   in which no pilot state notification batch raised ... *)
+Theorem C12_bound_only_to_eligible_strict :
+  forall (c : cfg) (ops : list op),
+    pst_ok ops (run c st0 ops) = true -> ok_bf_eligible true c ops (run c st0 ops) = true.
+Proof. exact bf_eligible_strict. Qed.
+Print Assumptions C12_bound_only_to_eligible_strict.
+
+(* ... and is REFUTED in general on the code as it is: a contradictory final
+   notification (DONE -> CANCELED) raises ValueError in _update_pilot_states
+   and the rest of the batch -- here "pilot 2 is DONE" -- is dropped; pilot 2
+   then gets the task.  Witness = corpus/C12/bf-pilot-batch-aborted-by-valueerror.json *)
+Theorem C12_bound_only_to_eligible_refuted :
+  exists (c : cfg) (ops : list op),
+    c_kind c = BF /\ ok_bf_eligible true c ops (run c st0 ops) = false.
+Proof. exact bf_eligible_refuted. Qed.
+Print Assumptions C12_bound_only_to_eligible_refuted.
 
 (* backfilling usage accounting, full statement REFUTED on the code as it is:
    a history exists after which every task placed on a pilot has been reported
